@@ -428,6 +428,9 @@ func cmdCheck(args []string) int {
 		if c.Assume {
 			tb = append(tb, "assumed contract (trusted): "+c.Key)
 		}
+		for _, t := range c.Trusted {
+			tb = append(tb, "trusted clause of "+c.Key+" (assumed at call sites, not checked in the body): "+t.Text)
+		}
 	}
 	for _, m := range mirrorUsed {
 		tb = append(tb, "contract file for "+m+" read from /verif/contracts mirror (not present in the tree under check)")
